@@ -22,13 +22,26 @@
 (* RST, silence), the application (bursts of state changes, plain /          *)
 (* explicit / unsuccessful / last), ICMP errors, shutdown, the clock.        *)
 (*                                                                          *)
+(* Rendering a notification is two steps when SlowRender is TRUE: the       *)
+(* renderer samples the state (event "render") and suspends; Release lets   *)
+(* it produce the response.  Whatever happens in between -- further state   *)
+(* changes, whose trigger lands in the slot that was re-armed BEFORE the    *)
+(* render started, Reset, re-registration, time-out, shutdown -- is         *)
+(* explored; after the response the loop finds the slot full and goes       *)
+(* round again, so the change that fell into the window is not forgotten.   *)
+(*                                                                          *)
 (* DropQueuedOnStop tells which version of the code is modelled: FALSE is    *)
 (* the pinned tree, where notifications waiting in the backlog survive the   *)
 (* end of their registration (TLC finds C08_SilentAfterEnd false); TRUE is   *)
 (* the repaired design.                                                      *)
 EXTENDS ObserveServerObs, TLC
 
-CONSTANTS NObservers, MaxChanges, MaxEnv, MaxSilence, AckTimeout, MaxTime, DropQueuedOnStop
+CONSTANTS NObservers, MaxChanges, MaxEnv, MaxSilence, AckTimeout, MaxTime, DropQueuedOnStop,
+          SlowRender,     \* TRUE: the renderer of a notification suspends after sampling the state
+          RearmBeforeRender  \* TRUE: the code (the trigger slot is re-armed before render() is awaited);
+                             \* FALSE: re-armed after it -- a trigger that lands during the rendering is
+                             \* overwritten and forgotten (known-bad variant: TLC must find
+                             \* C08_LatestEventuallySent false, which shows that the window is explored)
 
 Observers == 1..NObservers
 Tok(o) == CASE o = 1 -> "a1" [] o = 2 -> "a2" [] OTHER -> "a3"
@@ -46,13 +59,18 @@ VARIABLES now,
           lastReq,  \* o -> last request datagram and the reply stored for its duplicates (_recent_messages)
           nsent,    \* o -> distinct separate (CON/NON) responses put on the wire for o
           lastNon,  \* o -> [idx, mid] of the last NON notification (target of an unjudged Reset)
+          rs,       \* o -> suspended render of the task: [on, st (the state it sampled)]
+          slot,     \* o -> servobs._trigger while the task is busy rendering: [full, v (the latest trigger value)]
           shut, fin, benv, bsil, emit, obs
 
-vars == <<now, chg, nreg, reg, ex, bl, nextMid, pmid, lastReq, nsent, lastNon, shut, fin, benv, bsil, emit, obs>>
+vars == <<now, chg, nreg, reg, ex, bl, nextMid, pmid, lastReq, nsent, lastNon, rs, slot, shut, fin, benv, bsil, emit, obs>>
 
 NoReg == [g |-> 0, num |-> 0, late |-> FALSE, con |-> FALSE]
 NoNtf == [g |-> 0, ty |-> "", mid |-> 0, code |-> 0, ob |-> -1, st |-> -1, x |-> ""]
 NoEx == [on |-> FALSE, due |-> 0, retr |-> 0, tmo |-> 0, n |-> NoNtf, idx |-> 0]
+NoRs == [on |-> FALSE, st |-> 0]
+NoVal == [kind |-> "", code |-> 0, st |-> 0]
+NoSlot == [full |-> FALSE, v |-> NoVal]
 NewEx(n, idx) == [on |-> TRUE, due |-> now + AckTimeout, retr |-> 0, tmo |-> AckTimeout, n |-> n, idx |-> idx]
 
 EvAt(t, k, r, ty, mid, tok, cls, code, ob, st, g, n, x) ==
@@ -74,6 +92,7 @@ Init == /\ now = 0 /\ chg = 0 /\ nreg = 0
         /\ nextMid = Mid0 /\ pmid = [o \in Observers |-> 0]
         /\ lastReq = [o \in Observers |-> [rx |-> << >>, reply |-> << >>]]
         /\ nsent = [o \in Observers |-> 0] /\ lastNon = [o \in Observers |-> [idx |-> 0, mid |-> 0]]
+        /\ rs = [o \in Observers |-> NoRs] /\ slot = [o \in Observers |-> NoSlot]
         /\ shut = FALSE /\ fin = FALSE /\ benv = MaxEnv /\ bsil = MaxSilence
         /\ emit = << >> /\ obs = ObsInit
 
@@ -109,6 +128,9 @@ Request(o, ty, kind) ==
         /\ bl' = IF DropQueuedOnStop THEN [bl EXCEPT ![o] = << >>] ELSE bl
         /\ lastReq' = [lastReq EXCEPT ![o] = [rx |-> <<mk(0)[1]>>, reply |-> IF ty = "CON" THEN <<mk(0)[2]>> ELSE << >>]]
         /\ pmid' = [pmid EXCEPT ![o] = @ + 1]
+        \* a suspended render of the overridden pipe is cancelled with its task (the first rendering of
+        \* the new registration is not suspended: its response is the piggy-backed one)
+        /\ rs' = [rs EXCEPT ![o] = NoRs] /\ slot' = [slot EXCEPT ![o] = NoSlot]
   /\ benv' = benv - 1
   /\ UNCHANGED <<now, chg, ex, shut, fin, bsil>>
 
@@ -118,34 +140,50 @@ DupRequest(o) ==
   /\ Step(<<[lastReq[o].rx[1] EXCEPT !.t = now]>>
           \o [i \in 1..Len(lastReq[o].reply) |-> [lastReq[o].reply[i] EXCEPT !.t = now]])
   /\ benv' = benv - 1
-  /\ UNCHANGED <<now, chg, nreg, reg, ex, bl, nextMid, pmid, lastReq, nsent, lastNon, shut, fin, bsil>>
+  /\ UNCHANGED <<now, chg, nreg, reg, ex, bl, nextMid, pmid, lastReq, nsent, lastNon, rs, slot, shut, fin, bsil>>
 
 (* -- a burst of k state changes inside one callback --------------------------- *)
 (*    x = ""       updated_state()                 -> trigger(None)             *)
 (*    x = "ok"     trigger(2.05 explicit)      x = "unsucc"  trigger(4.04)      *)
 (*    x = "last"   trigger(None, is_last=True)                                  *)
 (*    every render task wakes once afterwards and sees only the last trigger.   *)
-ChgOne(o, acc, st1, x) ==
-  IF acc.reg[o].g = 0 THEN acc ELSE
+\* the task puts one notification on the wire (or into the backlog) and, if it is the last, runs its finally
+Emit(o, acc, kind, code, st, isLast) ==
   LET R == acc.reg[o]
-      late == R.late \/ x = "last"
-      unsucc == x = "unsucc"
-      isLast == late \/ unsucc
-      kind == IF x \in {"unsucc", "ok"} THEN "E" ELSE "S"
-      n == [g |-> R.g, ty |-> IF R.con THEN "CON" ELSE "NON", mid |-> acc.mid, code |-> IF unsucc THEN 132 ELSE 69,
-            ob |-> IF isLast THEN -1 ELSE R.num + 1, st |-> st1, x |-> kind]
+      n == [g |-> R.g, ty |-> IF R.con THEN "CON" ELSE "NON", mid |-> acc.mid, code |-> code,
+            ob |-> IF isLast THEN -1 ELSE R.num + 1, st |-> st, x |-> kind]
       queued == R.con /\ acc.ex[o].on           \* NSTART = 1: waits behind the open exchange
-  IN [evs |-> acc.evs
-               \o (IF kind = "S" THEN <<Plain("render", o, Tok(o), st1, R.g, 0, "S")>> ELSE << >>)
-               \o (IF queued THEN << >> ELSE <<TxNtf(o, n)>>)
-               \o (IF isLast THEN StopEvs(o, R.g, acc.cnt) ELSE << >>),
+  IN [evs |-> acc.evs \o (IF queued THEN << >> ELSE <<TxNtf(o, n)>>) \o (IF isLast THEN StopEvs(o, R.g, acc.cnt) ELSE << >>),
       cnt |-> IF isLast THEN acc.cnt - 1 ELSE acc.cnt,
       mid |-> acc.mid + 1,
-      reg |-> [acc.reg EXCEPT ![o] = IF isLast THEN NoReg ELSE [R EXCEPT !.num = R.num + 1, !.late = late]],
+      reg |-> [acc.reg EXCEPT ![o] = IF isLast THEN NoReg ELSE [R EXCEPT !.num = R.num + 1]],
       ex |-> IF queued \/ ~R.con THEN acc.ex ELSE [acc.ex EXCEPT ![o] = NewEx(n, acc.nsent[o] + 1)],
       bl |-> IF queued THEN [acc.bl EXCEPT ![o] = Append(acc.bl[o], n)] ELSE acc.bl,
       nsent |-> IF queued THEN acc.nsent ELSE [acc.nsent EXCEPT ![o] = acc.nsent[o] + 1],
-      lastNon |-> IF R.con THEN acc.lastNon ELSE [acc.lastNon EXCEPT ![o] = [idx |-> acc.nsent[o] + 1, mid |-> acc.mid]]]
+      lastNon |-> IF R.con THEN acc.lastNon ELSE [acc.lastNon EXCEPT ![o] = [idx |-> acc.nsent[o] + 1, mid |-> acc.mid]],
+      rs |-> [acc.rs EXCEPT ![o] = NoRs],
+      slot |-> IF isLast THEN [acc.slot EXCEPT ![o] = NoSlot] ELSE acc.slot]
+
+\* the task wakes with trigger value v (the slot has been re-armed): an explicit response is sent as it
+\* is; otherwise the resource is rendered -- at once, or (SlowRender) sampled now and produced at Release
+Serve(o, acc, v, stNow) ==
+  LET R == acc.reg[o]
+      rend == <<Plain("render", o, Tok(o), stNow, R.g, 0, "S")>>
+  IN IF v.kind = "E" THEN Emit(o, acc, "E", v.code, v.st, R.late \/ v.code = 132)
+     ELSE IF SlowRender
+       THEN [acc EXCEPT !.evs = acc.evs \o rend, !.rs = [acc.rs EXCEPT ![o] = [on |-> TRUE, st |-> stNow]]]
+       ELSE Emit(o, [acc EXCEPT !.evs = acc.evs \o rend], "S", 69, stNow, R.late)
+
+ChgOne(o, acc, st1, x) ==
+  IF acc.reg[o].g = 0 THEN acc ELSE
+  LET v == IF x = "ok" THEN [kind |-> "E", code |-> 69, st |-> st1]
+           ELSE IF x = "unsucc" THEN [kind |-> "E", code |-> 132, st |-> st1]
+           ELSE [kind |-> "S", code |-> 0, st |-> 0]
+      acc1 == [acc EXCEPT !.reg = [acc.reg EXCEPT ![o] = [acc.reg[o] EXCEPT !.late = acc.reg[o].late \/ x = "last"]]]
+  IN IF acc.rs[o].on
+       THEN \* the task is inside render(): the trigger lands in the re-armed slot (latest value wins)
+            [acc1 EXCEPT !.slot = [acc.slot EXCEPT ![o] = [full |-> TRUE, v |-> v]]]
+       ELSE Serve(o, acc1, v, st1)
 
 RECURSIVE ChgFold(_, _, _, _)
 ChgFold(o, acc, st1, x) == IF o > NObservers THEN acc ELSE ChgFold(o + 1, ChgOne(o, acc, st1, x), st1, x)
@@ -154,13 +192,30 @@ Change(k, x) ==
   /\ ~shut /\ ~fin /\ chg + k <= MaxChanges
   /\ LET acc0 == [evs |-> [i \in 1..k |-> Plain("change", 0, "", chg + i, 0, 0, x)],
                   cnt |-> Count(reg), mid |-> nextMid, reg |-> reg, ex |-> ex, bl |-> bl,
-                  nsent |-> nsent, lastNon |-> lastNon]
+                  nsent |-> nsent, lastNon |-> lastNon, rs |-> rs, slot |-> slot]
          acc == ChgFold(1, acc0, chg + k, x)
      IN /\ Step(acc.evs)
         /\ reg' = acc.reg /\ ex' = acc.ex /\ bl' = acc.bl /\ nsent' = acc.nsent /\ lastNon' = acc.lastNon
-        /\ nextMid' = acc.mid
+        /\ nextMid' = acc.mid /\ rs' = acc.rs /\ slot' = acc.slot
   /\ chg' = chg + k
   /\ UNCHANGED <<now, nreg, pmid, lastReq, shut, fin, benv, bsil>>
+
+(* -- the suspended renderer of o's task is released: it produces the response   *)
+(*    for the state it sampled; the loop then looks at the slot again ----------- *)
+Release(o) ==
+  /\ ~fin /\ rs[o].on
+  /\ LET R == reg[o]
+         acc0 == [evs |-> <<Plain("release", o, Tok(o), -1, R.g, 0, "")>>,
+                  cnt |-> Count(reg), mid |-> nextMid, reg |-> reg, ex |-> ex, bl |-> bl,
+                  nsent |-> nsent, lastNon |-> lastNon, rs |-> rs, slot |-> slot]
+         a1 == Emit(o, acc0, "S", 69, rs[o].st, R.late)          \* is_last is looked at after the rendering
+         acc == IF R.late \/ ~slot[o].full THEN a1
+                ELSE IF ~RearmBeforeRender THEN [a1 EXCEPT !.slot = [a1.slot EXCEPT ![o] = NoSlot]]
+                ELSE Serve(o, [a1 EXCEPT !.slot = [a1.slot EXCEPT ![o] = NoSlot]], slot[o].v, chg)
+     IN /\ Step(acc.evs)
+        /\ reg' = acc.reg /\ ex' = acc.ex /\ bl' = acc.bl /\ nsent' = acc.nsent /\ lastNon' = acc.lastNon
+        /\ nextMid' = acc.mid /\ rs' = acc.rs /\ slot' = acc.slot
+  /\ UNCHANGED <<now, chg, nreg, pmid, lastReq, shut, fin, benv, bsil>>
 
 (* -- _continue_backlog: the next waiting notification goes out ----------------- *)
 Continue(o, pre, post, q) ==
@@ -175,7 +230,7 @@ Continue(o, pre, post, q) ==
 Ack(o) ==
   /\ ~shut /\ ~fin /\ ex[o].on
   /\ Continue(o, <<Ev("rx", o, "ACK", ex[o].n.mid, "", "empty", 0, -1, -1, 0, ex[o].idx, "")>>, << >>, bl[o])
-  /\ UNCHANGED <<now, chg, nreg, reg, nextMid, pmid, lastReq, lastNon, shut, fin, benv, bsil>>
+  /\ UNCHANGED <<now, chg, nreg, reg, nextMid, pmid, lastReq, lastNon, rs, slot, shut, fin, benv, bsil>>
 
 (* -- ... or rejects it: _remove_exchange calls the message-error monitor,      *)
 (*    i.e. the stopper of the pipe that sent it ------------------------------- *)
@@ -187,6 +242,8 @@ Rst(o) ==
                     IF hit THEN StopEvs(o, g, Count(reg)) ELSE << >>,
                     IF DropQueuedOnStop THEN Drop(bl[o], g) ELSE bl[o])
         /\ reg' = IF hit THEN [reg EXCEPT ![o] = NoReg] ELSE reg
+        /\ rs' = IF hit THEN [rs EXCEPT ![o] = NoRs] ELSE rs
+        /\ slot' = IF hit THEN [slot EXCEPT ![o] = NoSlot] ELSE slot
   /\ UNCHANGED <<now, chg, nreg, nextMid, pmid, lastReq, lastNon, shut, fin, benv, bsil>>
 
 (* -- a Reset answering a NON notification: no exchange, nothing happens ------ *)
@@ -194,7 +251,7 @@ RstNon(o) ==
   /\ ~shut /\ ~fin /\ benv > 0 /\ lastNon[o].idx # 0
   /\ Step(<<Ev("rx", o, "RST", lastNon[o].mid, "", "empty", 0, -1, -1, 0, lastNon[o].idx, "")>>)
   /\ benv' = benv - 1
-  /\ UNCHANGED <<now, chg, nreg, reg, ex, bl, nextMid, pmid, lastReq, nsent, lastNon, shut, fin, bsil>>
+  /\ UNCHANGED <<now, chg, nreg, reg, ex, bl, nextMid, pmid, lastReq, nsent, lastNon, rs, slot, shut, fin, bsil>>
 
 (* -- retransmission timer of the open exchange (_retransmit) ------------------ *)
 TimerRetransmit(o) ==
@@ -203,11 +260,12 @@ TimerRetransmit(o) ==
      IF x.retr < MaxRetransmit
        THEN /\ Step(<<TxNtf(o, x.n)>>)
             /\ ex' = [ex EXCEPT ![o] = [x EXCEPT !.retr = x.retr + 1, !.tmo = 2 * x.tmo, !.due = now + 2 * x.tmo]]
-            /\ UNCHANGED <<reg, bl>>
+            /\ UNCHANGED <<reg, bl, rs, slot>>
        ELSE \* give up: the backlog of the remote is dropped, dispatch_error stops every pipe of the remote
             /\ Step(IF reg[o].g # 0 THEN StopEvs(o, reg[o].g, Count(reg)) ELSE << >>)
             /\ ex' = [ex EXCEPT ![o] = NoEx] /\ bl' = [bl EXCEPT ![o] = << >>]
             /\ reg' = [reg EXCEPT ![o] = NoReg]
+            /\ rs' = [rs EXCEPT ![o] = NoRs] /\ slot' = [slot EXCEPT ![o] = NoSlot]
   /\ bsil' = IF bsil > 0 THEN bsil - 1 ELSE 0
   /\ UNCHANGED <<now, chg, nreg, nextMid, pmid, lastReq, nsent, lastNon, shut, fin, benv>>
 
@@ -216,6 +274,7 @@ Err(o) ==
   /\ ~shut /\ ~fin /\ benv > 0
   /\ Step(<<Plain("err", o, "", -1, 0, 0, "")>> \o (IF reg[o].g # 0 THEN StopEvs(o, reg[o].g, Count(reg)) ELSE << >>))
   /\ ex' = [ex EXCEPT ![o] = NoEx] /\ bl' = [bl EXCEPT ![o] = << >>] /\ reg' = [reg EXCEPT ![o] = NoReg]
+  /\ rs' = [rs EXCEPT ![o] = NoRs] /\ slot' = [slot EXCEPT ![o] = NoSlot]
   /\ benv' = benv - 1
   /\ UNCHANGED <<now, chg, nreg, nextMid, pmid, lastReq, nsent, lastNon, shut, fin, bsil>>
 
@@ -230,6 +289,7 @@ Shutdown ==
           \o <<Plain("shutdown-done", 0, "", -1, 0, 0, "ok")>>)
   /\ shut' = TRUE
   /\ reg' = [o \in Observers |-> NoReg] /\ ex' = [o \in Observers |-> NoEx] /\ bl' = [o \in Observers |-> << >>]
+  /\ rs' = [o \in Observers |-> NoRs] /\ slot' = [o \in Observers |-> NoSlot]
   /\ benv' = benv - 1
   /\ UNCHANGED <<now, chg, nreg, nextMid, pmid, lastReq, nsent, lastNon, fin, bsil>>
 
@@ -238,13 +298,13 @@ Tick == /\ ~fin /\ ~TimerDue /\ now < MaxTime
         /\ \E o \in Observers : ex[o].on         \* idle waiting changes nothing: time passes only towards a timer
         /\ Cardinality({o \in Observers : ex[o].on /\ ex[o].due = now + 1}) <= bsil
         /\ now' = now + 1 /\ emit' = << >>
-        /\ UNCHANGED <<chg, nreg, reg, ex, bl, nextMid, pmid, lastReq, nsent, lastNon, shut, fin, benv, bsil, obs>>
+        /\ UNCHANGED <<chg, nreg, reg, ex, bl, nextMid, pmid, lastReq, nsent, lastNon, rs, slot, shut, fin, benv, bsil, obs>>
 
 (* -- quiescence: nothing in flight, no timer armed ---------------------------- *)
-End == /\ ~fin /\ \A o \in Observers : ~ex[o].on
+End == /\ ~fin /\ \A o \in Observers : ~ex[o].on /\ ~rs[o].on
        /\ Step(<<Plain("end", 0, "", -1, 0, 0, "")>>)
        /\ fin' = TRUE
-       /\ UNCHANGED <<now, chg, nreg, reg, ex, bl, nextMid, pmid, lastReq, nsent, lastNon, shut, benv, bsil>>
+       /\ UNCHANGED <<now, chg, nreg, reg, ex, bl, nextMid, pmid, lastReq, nsent, lastNon, rs, slot, shut, benv, bsil>>
 
 Next == \/ \E o \in Observers : TimerRetransmit(o)
         \* (observers are interchangeable: observer o + 1 does not appear before observer o)
@@ -253,6 +313,7 @@ Next == \/ \E o \in Observers : TimerRetransmit(o)
         \/ (~TimerDue /\ \E o \in Observers : DupRequest(o))
         \/ (~TimerDue /\ \E k \in 1..MaxChanges, x \in {"", "ok", "unsucc", "last"} : Change(k, x))
         \/ (~TimerDue /\ \E o \in Observers : Ack(o) \/ Rst(o) \/ RstNon(o))
+        \/ (~TimerDue /\ \E o \in Observers : Release(o))
         \/ (~TimerDue /\ \E o \in Observers : Err(o))
         \/ (~TimerDue /\ Shutdown)
         \/ Tick
@@ -263,5 +324,5 @@ Spec == Init /\ [][Next]_vars
 NoBad == obs.bad = {}
 \* state-based forms of the bookkeeping clauses
 CountMatches == obs.cnt = Count(reg)
-View == <<now, chg, nreg, reg, ex, bl, nextMid, pmid, lastReq, nsent, lastNon, shut, fin, benv, bsil, obs>>
+View == <<now, chg, nreg, reg, ex, bl, nextMid, pmid, lastReq, nsent, lastNon, rs, slot, shut, fin, benv, bsil, obs>>
 =============================================================================
